@@ -385,6 +385,91 @@ pub fn run(tier: Tier) -> i32 {
         extra: vec![],
     });
 
+    // the same damage arriving through a pipe in two writes (the valid file first, the surplus after a
+    // pause), and with verbosity flags: rejection must not depend on either
+    {
+        use crate::cli::run_sfs_piped;
+        let mut xj: Vec<(usize, usize, usize, usize)> = Vec::new(); // base, ext len, filler, consumer
+        for &bi in &pick {
+            if bases[bi].bytes.is_empty() {
+                continue;
+            }
+            for n in [1usize, 3, 8, 16] {
+                for f in [0usize, 4] {
+                    for c in 0..3 {
+                        xj.push((bi, n, f, c));
+                    }
+                }
+            }
+        }
+        let res = par_map(xj.len(), |i| {
+            let (bi, n, f, c) = xj[i];
+            let whole = damaged(&bases[bi].bytes, Damage::Extend(n, f));
+            let cut = bases[bi].bytes.len();
+            let o = run_sfs_piped(CONSUMERS[c], &[&whole[..cut], &whole[cut..]], 40, &scratch);
+            judge_rejected(&o).err().map(|e| {
+                (
+                    format!("C16|cli|damaged-accepted-from-pipe|{}", CONSUMERS[c][0]),
+                    format!("sfs {} reading {} + {n} surplus bytes ({}) from a pipe in two writes: {e}", CONSUMERS[c].join(" "), bases[bi].name, FILLERS[f]),
+                    J::obj([("kind", J::s("c16-pipe")), ("argv", J::strs(CONSUMERS[c])), ("stdin", bytes_j(&whole)), ("cut", J::u(cut))]),
+                )
+            })
+        });
+        for v in res.into_iter().flatten() {
+            rep.violation(v.0, v.1, v.2);
+        }
+        let flags = ["-q", "-qq", "-v", "-vv"];
+        let mut fj: Vec<(usize, Damage, usize, usize)> = Vec::new();
+        for &bi in pick.iter().take(2) {
+            let len = bases[bi].bytes.len();
+            for d in [Damage::Truncate(len - 1), Damage::Truncate(len / 2), Damage::Truncate(7), Damage::Extend(8, 0), Damage::Extend(3, 4)] {
+                for c in 0..3 {
+                    for f in 0..flags.len() {
+                        fj.push((bi, d, c, f));
+                    }
+                }
+            }
+        }
+        let res2 = par_map(fj.len(), |i| {
+            let (bi, d, c, f) = fj[i];
+            let bytes = damaged(&bases[bi].bytes, d);
+            let mut args: Vec<&str> = CONSUMERS[c].to_vec();
+            args.push(flags[f]);
+            let o = run_sfs(&args, Stdin::Bytes(&bytes), &scratch);
+            // (a quiet flag may silence the message; the exit status and the empty stdout may not change)
+            if !o.ok() && o.stdout.is_empty() && !o.panicked() && o.code.is_some() {
+                None
+            } else {
+                Some((
+                    format!("C16|cli|damaged-accepted-with-flag|{}|{}", CONSUMERS[c][0], flags[f]),
+                    format!("sfs {} on {} with {d:?}: {} stdout {:?}", args.join(" "), bases[bi].name, o.status_str(), o.stdout_str()),
+                    J::obj([("kind", J::s("c16-flag")), ("argv", J::strs(&args)), ("stdin", bytes_j(&bytes))]),
+                ))
+            }
+        });
+        for v in res2.into_iter().flatten() {
+            rep.violation(v.0, v.1, v.2);
+        }
+        rep.part(Part {
+            name: "cli: damaged files with verbosity flags".into(),
+            evaluations: fj.len() as u64,
+            nontrivial: fj.len() as u64,
+            note: "truncations and extensions of two files x view/fold/stat x {-q,-qq,-v,-vv}: the run must still fail with empty stdout".into(),
+            exhaustive: true,
+            extra: vec![],
+        });
+        let was_exhaustive = rep.exhaustive;
+        rep.part(Part {
+            name: "cli: surplus bytes arriving through a pipe in a second write".into(),
+            evaluations: xj.len() as u64,
+            nontrivial: xj.len() as u64,
+            note: "the valid npy file written first, 1/3/8/16 surplus bytes (pattern, newlines) after a 40 ms pause: still rejected (end-to-end confirmation; arrival timing is OS-dependent)".into(),
+            exhaustive: false,
+            extra: vec![],
+        });
+        rep.exhaustive = was_exhaustive; // the pipe runs are a confirmation; the deciding enumerations are complete
+    }
+
     // text
     let tshapes: Vec<Vec<usize>> = if tier.thorough() {
         vec![vec![1], vec![2], vec![5], vec![2, 2], vec![2, 3], vec![3, 3], vec![3, 5], vec![1, 4], vec![2, 3, 2], vec![3, 2, 2], vec![2, 2, 2, 2], vec![3, 1, 2, 2]]
@@ -462,6 +547,23 @@ pub fn replay(case: &J) -> Option<Vec<String>> {
                 Ok(Err(_)) => Some(vec![]),
                 other => Some(vec![format!("C16|lib|damaged-npy :: read_npy returned {other:?}, expected Err")]),
             }
+        }
+        "c16-pipe" => {
+            let argv: Vec<String> = case.get("argv")?.as_arr()?.iter().filter_map(|x| x.as_str().map(|s| s.to_string())).collect();
+            let a: Vec<&str> = argv.iter().map(|s| s.as_str()).collect();
+            let whole = crate::json::j_bytes(case.get("stdin")?)?;
+            let cut = (case.get("cut")?.as_i64()? as usize).min(whole.len());
+            let scratch = Scratch::new("c16r");
+            let o = crate::cli::run_sfs_piped(&a, &[&whole[..cut], &whole[cut..]], 40, &scratch);
+            Some(judge_rejected(&o).err().map(|e| format!("C16|cli|damaged-accepted-from-pipe :: {e}")).into_iter().collect())
+        }
+        "c16-flag" => {
+            let argv: Vec<String> = case.get("argv")?.as_arr()?.iter().filter_map(|x| x.as_str().map(|s| s.to_string())).collect();
+            let a: Vec<&str> = argv.iter().map(|s| s.as_str()).collect();
+            let bytes = crate::json::j_bytes(case.get("stdin")?)?;
+            let scratch = Scratch::new("c16r");
+            let o = run_sfs(&a, Stdin::Bytes(&bytes), &scratch);
+            Some(if !o.ok() && o.stdout.is_empty() && !o.panicked() { vec![] } else { vec![format!("C16|cli|damaged-accepted-with-flag :: {} {:?}", o.status_str(), o.stdout_str())] })
         }
         "c16-cli" => {
             let argv: Vec<String> = case.get("argv")?.as_arr()?.iter().filter_map(|x| x.as_str().map(|s| s.to_string())).collect();
